@@ -224,9 +224,9 @@ pub fn op_create_index() -> impl Strategy<Value = Op> {
 }
 pub fn op_schema() -> impl Strategy<Value = Op> {
     prop_oneof![
-        3 => (0u8..3, any::<u8>(), any::<u8>(), 0u16..40).prop_map(|(kind, ty, src, lit)| Op::AddColumn { kind, ty, src, lit }),
+        3 => (0u8..4, any::<u8>(), any::<u8>(), 0u16..40).prop_map(|(kind, ty, src, lit)| Op::AddColumn { kind, ty, src, lit }),
         2 => any::<u8>().prop_map(|col| Op::DropColumn { col }),
-        3 => (any::<u8>(), 0u8..4).prop_map(|(col, action)| Op::AlterColumn { col, action }),
+        3 => (any::<u8>(), 0u8..8).prop_map(|(col, action)| Op::AlterColumn { col, action }),
         1 => op_join_column(),
     ]
 }
@@ -286,6 +286,8 @@ pub struct Effect {
     pub insert: Vec<Row>,
     pub overwrite: Option<(TableSchema, Vec<Row>)>,
     pub add_col: Option<(ColSpec, BTreeMap<i64, Val>)>,
+    /// second column added by the same add_columns call
+    pub add_col2: Option<(ColSpec, BTreeMap<i64, Val>)>,
     pub drop_col: Option<u32>,
     pub rename: Option<(u32, String)>,
     pub set_nullable: Option<(u32, bool)>,
@@ -355,6 +357,15 @@ pub fn apply_effect(base: &VersionState, e: &Effect, versions: &BTreeMap<u64, Ve
         }
     }
     if let Some((spec, values)) = &e.add_col {
+        if s.schema.col(&spec.name).is_some() {
+            return Err(format!("column {} added twice", spec.name));
+        }
+        s.schema.cols.push(spec.clone());
+        for r in &mut s.rows {
+            r.vals.push(values.get(&r.uid).cloned().unwrap_or(Val::Null));
+        }
+    }
+    if let Some((spec, values)) = &e.add_col2 {
         if s.schema.col(&spec.name).is_some() {
             return Err(format!("column {} added twice", spec.name));
         }
@@ -442,7 +453,18 @@ pub fn resolve_pred(p: &RawPred, schema: &TableSchema) -> BExpr {
             if ty == ColType::Bool {
                 return BExpr::Cmp { col: name, ty, op: if op % 2 == 0 { CmpOp::Eq } else { CmpOp::Ne }, lit: Val::B(l % 2 == 1) };
             }
-            let v = lit(ty, &name, *l);
+            let mut v = lit(ty, &name, *l);
+            if crate::model::WIDE_LITS.with(|m| m.get()) && name != UID && l % 5 == 4 {
+                // a literal just outside the column type's range (the comparison is still well defined)
+                if let (Some((lo, hi)), true) = (ty.int_range(), matches!(ty, ColType::I8 | ColType::I16 | ColType::I32 | ColType::U8 | ColType::U32)) {
+                    v = Val::I(match (l / 5) % 4 {
+                        0 => hi + 1,
+                        1 => lo - 1,
+                        2 => hi + 1 + (hi - lo + 1) + 1, // wraps onto lo + 1 under a truncating conversion
+                        _ => -1 - (l % 3) as i128 + lo.min(0),
+                    });
+                }
+            }
             BExpr::Cmp { col: name, ty, op: CmpOp::ALL[*op as usize % 6], lit: v }
         }
         RawPred::IsNull { col } => BExpr::IsNull { col: pick_col(schema, *col).0 },
@@ -485,7 +507,8 @@ pub fn resolve_pred(p: &RawPred, schema: &TableSchema) -> BExpr {
                         Val::S(s) => s.chars().filter(|ch| *ch != '%' && *ch != '_' && *ch != '\\').take(2).collect(),
                         _ => String::new(),
                     };
-                    return BExpr::LikePrefix { col: c.name.clone(), prefix };
+                    // the seed also picks the form: LIKE, NOT LIKE, ILIKE, NOT ILIKE
+                    return BExpr::LikePrefix { col: c.name.clone(), prefix, negated: (*l / 3) % 2 == 1, ci: (*l / 6) % 2 == 1 };
                 }
             }
             BExpr::IsNull { col: pick_col(schema, *col).0 }
@@ -1178,7 +1201,37 @@ impl World {
                     }
                     None => format!("n{}", self.col_counter),
                 };
-                match kind % 3 {
+                match kind % 4 {
+                    3 => {
+                        // one call adding an all-null column (CAST(NULL AS t)) and a computed one, in a generated order
+                        self.col_counter += 1;
+                        let name2 = format!("n{}", self.col_counter);
+                        let t = [ColType::I32, ColType::I64, ColType::Utf8, ColType::F64][*ty as usize % 4];
+                        let sql_ty = match t {
+                            ColType::I32 => "INT",
+                            ColType::I64 => "BIGINT",
+                            ColType::Utf8 => "STRING",
+                            _ => "DOUBLE",
+                        };
+                        let k = (*lit % 5) as i128;
+                        let null_spec = ColSpec { name: name.clone(), ty: t, nullable: true, cid: self.col_counter - 1 };
+                        let comp_spec = ColSpec { name: name2.clone(), ty: ColType::I64, nullable: false, cid: self.col_counter };
+                        let vals: BTreeMap<i64, Val> = at.rows.iter().map(|r| (r.uid, Val::I(r.uid as i128 + k))).collect();
+                        let null_expr = (name.clone(), format!("CAST(NULL AS {sql_ty})"));
+                        let comp_expr = (name2.clone(), format!("uid + {k}"));
+                        let null_first = src % 2 == 0;
+                        let exprs = if null_first { vec![null_expr, comp_expr] } else { vec![comp_expr, null_expr] };
+                        obs.label("add-null-and-computed-in-one-call");
+                        let r = h.add_columns(NewColumnTransform::SqlExpressions(exprs), None, None).await.map_err(lerr);
+                        if null_first {
+                            e.add_col = Some((null_spec, BTreeMap::new()));
+                            e.add_col2 = Some((comp_spec, vals));
+                        } else {
+                            e.add_col = Some((comp_spec, vals));
+                            e.add_col2 = Some((null_spec, BTreeMap::new()));
+                        }
+                        Ok((r, Some(e)))
+                    }
                     0 => {
                         // all nulls
                         let t = ColType::ALL[*ty as usize % ColType::ALL.len()];
@@ -1247,7 +1300,16 @@ impl World {
                         (Val::I(x), Some((lo, hi))) => *x < lo || *x > hi,
                         _ => false,
                     });
-                    let r = h.alter_columns(&[ColumnAlteration::new(c.name.clone()).cast_to(to.arrow())]).await.map_err(lerr);
+                    let mut alteration = ColumnAlteration::new(c.name.clone()).cast_to(to.arrow());
+                    if action % 8 == 7 {
+                        // rename and cast in one alteration
+                        self.col_counter += 1;
+                        let to_name = format!("r{}", self.col_counter);
+                        alteration = alteration.rename(to_name.clone());
+                        e.rename = Some((c.cid, to_name));
+                        obs.label("rename-and-cast-in-one-alteration");
+                    }
+                    let r = h.alter_columns(&[alteration]).await.map_err(lerr);
                     if r.is_ok() && lossy {
                         return Err(Failure::new("lossy-cast-accepted", format!("cast of {} from {:?} to {:?} accepted although a value does not fit", c.name, c.ty, to)));
                     }
